@@ -22,7 +22,8 @@ for pid in sorted(props):
         c = dict(c); c.setdefault("level", level); cfg[pid] = c
     else:
         na.append({"property_id": pid, "reason": NA_REASON.get(pid, "contracts designed (DESIGN §6) but not built yet — unclaimed")})
-hooks = subprocess.run(["git","-C","/repo","log","--format=%H","--grep=^verif:"],capture_output=True,text=True).stdout.split()
+# hook commits: every commit that touches a guarded contract file (verif: commits and the driver's end-of-round snapshot)
+hooks = subprocess.run(["git","-C","/repo","log","--format=%H","--","verif_contracts.go","ds/list/verif_contracts.go","ds/set/verif_contracts.go"],capture_output=True,text=True).stdout.split()
 m = {"version": 1, "setup_cmd": "./setup.sh",
  "hooks": {"guard": "verif", "enable": "-tags verif (comment-only contract files verif_contracts*.go; read by govc, never compiled into the library)",
            "baseline_off_cmd": "cd /repo && GOFLAGS=-mod=mod GOPROXY=off GOSUMDB=off go test -vet=off -count=1 ./...",
